@@ -123,9 +123,21 @@ def gen_skel(root, repo, goenv, scratch):
 def coqchk(pid, root):
     coq = os.path.join(root, "coq")
     mod = "V.Props." + pid
+    args = ["timeout", "2400", "coqchk", "-silent", "-o", "-Q", ".", "V"]
+    if get(pid).get("coqchk_norec"):
+        # Props/Cxx depends on large add-on libraries (Interval, Coquelicot, Flocq over the reals):
+        # re-check every module of this development, admit the installed libraries as they are
+        mods = []
+        for line in open(os.path.join(coq, "_CoqProject")):
+            line = line.strip()
+            if line.endswith(".v") and not line.startswith("Props/"):
+                mods.append("V." + line[:-2].replace("/", "."))
+        for m in mods + [mod]:
+            args += ["-norec", m]
+    else:
+        args.append(mod)
     try:
-        r = subprocess.run(["timeout", "2400", "coqchk", "-silent", "-o", "-Q", ".", "V", mod], cwd=coq,
-                           stdout=subprocess.PIPE, stderr=subprocess.STDOUT, text=True, timeout=2500)
+        r = subprocess.run(args, cwd=coq, stdout=subprocess.PIPE, stderr=subprocess.STDOUT, text=True, timeout=2500)
     except subprocess.TimeoutExpired:
         return False, "coqchk timeout"
     return r.returncode == 0, r.stdout
@@ -186,7 +198,7 @@ reg("C20",
     technique="Coq induction over the observation sequence; differential correspondence on gathered metric families",
     timeout={"quick": 600, "thorough": 3000})
 
-reg("C01", fast=True, fast_only=("sine",),
+reg("C01", fast=True, fast_only=("sine",), coqchk_norec=True,
     rule="constant pacer: single calls on a boundary lattice of (Freq, Per, elapsed, hits) incl. 0, +-1, Per+-1, "
          "2^31, 2^62, MaxInt64, negatives, hits near the schedule and near MaxUint64; closed loops in virtual time "
          "(10..400 calls, every 400th 20000) for dividing, non-dividing and above-1-per-ns rates with no, rare and "
@@ -213,7 +225,8 @@ reg("C01", fast=True, fast_only=("sine",),
                  "the lower bound (count not more than one hit + 1 ns of schedule per hit interval behind) is decided on stall-free histories only: after a stall the attacker is behind by construction"],
     trusted_base=["the sine statements (sine_schedule_enclosed, sine_rate_enclosed, sine_schedule_mono, sine_closed_loop_upper_partial) use Coq's real numbers: standard-library axioms ClassicalDedekindReals.sig_not_dec, sig_forall_dec, "
                   "Classical_Prop.classic, FunctionalExtensionality.functional_extensionality_dep as Print Assumptions reports them, and the Interval tactic (bounds on PI, 2^-80) which computes with the kernel's primitive integers and floats "
-                  "(PrimInt63.*, PrimFloat.*, Uint63 specification axioms of the standard library)"],
+                  "(PrimInt63.*, PrimFloat.*, Uint63 specification axioms of the standard library)",
+                  "thorough tier: coqchk re-checks every module of this development with -norec and admits the installed libraries (standard library reals, Interval, Coquelicot, Flocq) as they are - re-checking those takes over 40 minutes"],
     level_text="Constant pacer, in full: closed_loop_upper (generic, all pacers/stall histories/lengths), const_no_panic, const_neg_stops, const_zero_unlimited, const_overflow_stops, const_contract, const_positive_wait, const_lower proved over Z with the uint64/int64 wrap-arounds written out; bit-exact tie. "
                "Linear pacer: linear_contract_pos, linear_closed_loop_upper (non-negative slope, every stall history, calls at rates <= 5*10^8/s), linear_schedule_mono, linear_positive_wait, linear_neg_stops, linear_zero_unlimited proved over exact rationals; linear_neg_refuted (negative slope: known finding); tie inside a guard band. "
                "Sine pacer, PARTIAL: sine_schedule_enclosed / sine_rate_enclosed (the checker's Q-interval evaluator - Taylor sums + angle doubling + outward rounding - encloses the real schedule and rate), sine_schedule_mono, and sine_closed_loop_upper_partial (count within one hit for every history whose calls keep the per-call contract) proved over R; "
